@@ -53,8 +53,7 @@ EXTENDS Integers, Sequences, FiniteSets, TLC, Json
 
 CONSTANTS Prefixes,       \* BOOLEAN: build with FEAT_CUBATURE_TENSOR_PREFIX / _SCALAR_PREFIX
           Styles,         \* subset of {"lower", "upper", "mixed"}: case styles of the valid sentences
-          RefineMaxPar,   \* "refine:" / "refine*1:" / "refine*0:" are put in front of cores with parameter <= this
-          Refine2MaxPar,  \* "refine*2:" only in front of cores with parameter <= this
+          RefineMaxPts,   \* a refine prefix is put in front of a core as long as the refined rule has at most this many points
           Invalid         \* BOOLEAN: enumerate the invalid neighbours as well
 
 VARIABLES ph, shape, sentence
@@ -228,7 +227,8 @@ AliasCore(a, par) == [kind |-> "alias", tok |-> a, par |-> par]
 AutoCore(par) == [kind |-> "auto", tok |-> "auto-degree", par |-> par]
 RawCore(txt, why) == [kind |-> "raw", tok |-> txt, par |-> BadPar("", why)]
 
-CorePar(core) == IF core.kind = "alias" THEN Aliases[core.tok][2] ELSE core.par.n
+CorePts(core, sh) == IF core.kind = "alias" THEN Points(Aliases[core.tok][1], Aliases[core.tok][2], sh)
+                     ELSE Points(core.tok, core.par.n, sh)
 
 \* valid cores of a shape (every driver with every parameter of its range, every alias, auto-degree 0..max+2)
 ValidCores(sh) ==
@@ -237,16 +237,16 @@ ValidCores(sh) ==
   \cup {AliasCore(a, NoPar) : a \in {b \in DOMAIN Aliases : Avail(Aliases[b][1], sh)}}
   \cup {AutoCore(NumPar(n)) : n \in 0..(MaxAutoDegree(sh) + 2)}
 
-RefinesFor(core) ==
+RefinesFor(core, sh) ==
   {NoRefine}
-  \cup (IF core.kind # "auto" /\ CorePar(core) <= RefineMaxPar THEN {PlainRefine, CountRefine(0), CountRefine(1)} ELSE {})
+  \cup (IF core.kind # "auto" /\ CorePts(core, sh) * RefineFactor(sh) <= RefineMaxPts THEN {PlainRefine, CountRefine(0), CountRefine(1)} ELSE {})
   \cup (IF core.kind = "auto" /\ core.par.n \in {2, 5} THEN {PlainRefine} ELSE {})
-  \cup (IF core.kind # "auto" /\ CorePar(core) <= Refine2MaxPar THEN {CountRefine(2)} ELSE {})
+  \cup (IF core.kind # "auto" /\ CorePts(core, sh) * RefineFactor(sh) * RefineFactor(sh) <= RefineMaxPts THEN {CountRefine(2)} ELSE {})
 
 PrefixFor(core, sh) == IF Prefixes /\ IsScalarCore(core) THEN PrefixOf(sh) ELSE ""
 
 ValidSentences(sh) ==
-  UNION {{[refine |-> r, prefix |-> PrefixFor(core, sh), core |-> core, style |-> st] : r \in RefinesFor(core), st \in Styles} :
+  UNION {{[refine |-> r, prefix |-> PrefixFor(core, sh), core |-> core, style |-> st] : r \in RefinesFor(core, sh), st \in Styles} :
            core \in ValidCores(sh)}
 
 \* invalid neighbours of the language --------------------------------------------------------------------
@@ -320,5 +320,5 @@ Emit == ph = "done" =>
   LET m == Meaning(sentence, shape) IN
   PrintT(ToJson([name |-> Text(sentence), kind |-> shape.kind, dim |-> shape.dim, accept |-> m.v.accept, pts |-> m.v.pts,
                  deg |-> m.v.deg, base |-> m.base, why |-> m.why, maxauto |-> MaxAutoDegree(shape), prefixes |-> Prefixes,
-                 refine |-> sentence.refine.kind, style |-> sentence.style]))
+                 refine |-> sentence.refine.kind, style |-> sentence.style, core |-> sentence.core.kind]))
 =============================================================================
